@@ -320,6 +320,41 @@ def reset_stops_loop(ctx, sr, eng, f, st, evs, clear_idx):
     return ''
 
 
+def tabs_op_run(ctx, meth, stops, x, sel_):
+    """run set_tab_stop / clear_tab_stop on an exactly known stop set; returns [(resulting stops as python
+    values or None, final cursor x)]; the pending-wrap column is kept symbolic (= columns)"""
+    prog = ctx.prog
+    eng = Engine(prog, ctx.eff, config=dict(max_steps=100000, check_inv=False))
+    st = State()
+    inv.screen_init(eng, st)
+    scr = st.store[inv.S_ROOT]
+    scr = scr.with_field('tabstops', CollV('set', 'std::collections::HashSet<u32>', 'ts', known=tuple(NumV(None, s_, 'u32') for s_ in stops)))
+    cur = scr.fields['cursor']
+    cols = scr.fields['columns']
+    if x == 'pending':
+        xv = cols
+    else:
+        xv = NumV(None, x, 'u32')
+        eng.assume_cmp(st, 'lt', xv, cols)
+    st.store[inv.S_ROOT] = scr.with_field('cursor', cur.with_field('x', xv))
+    args = [RefV((inv.S_ROOT, ()), True)]
+    if meth == 'clear_tab_stop':
+        ty = 'std::option::Option<u32>'
+        args.append(EnumV(ty, {0}, {}) if sel_ is None else EnumV(ty, {1}, {1: StructV('Some', {'0': NumV(None, sel_, 'u32')})}))
+    try:
+        res = eng.exec_body(st, ep(meth), args)
+    except Budget:
+        return []
+    out = []
+    for (s2, ret) in res:
+        ts = get(eng, s2, 'tabstops')
+        known = None
+        if isinstance(ts, CollV) and ts.known is not None:
+            known = [v.k if isinstance(v, NumV) and v.sym is None else repr(v) for v in ts.known]
+        out.append((known, get(eng, s2, 'cursor', 'x')))
+    return out
+
+
 def run_c18(ctx, chk):
     chk.assume('A-DIM', 'A-PUB', 'A-TOOL')
     sr = ctx.screen_run()
@@ -368,7 +403,29 @@ def run_c18(ctx, chk):
         x0 = st.vn[('entry', 'x')]
         if not (len(ops) == 1 and ops[0][0] == 'set.insert' and isinstance(ops[0][2], NumV) and eng.prove_cmp(st, 'eq', ops[0][2], x0) is True):
             bad.append(str([o[:3] for o in ops]))
-    chk.instance('R-TABS', short(f), 'adds exactly the cursor column', not bad, detail='; '.join(bad[:2]), span=prog.bodies[f].span, what='HTS performs %s' % bad[:1])
+    how_decided = 'one insert of the cursor column on every path'
+    if bad:
+        # another shape (e.g. guarded by `contains`): decide the resulting set on exactly known stop sets
+        bad2 = []
+        for stops in ([], [8], [8, 16], [3], [0, 5]):
+            for x in (0, 3, 5, 8, 17):
+                got = tabs_op_run(ctx, 'set_tab_stop', stops, x, None)
+                want = lambda cols: sorted(set(stops) | {x})
+                for (known, xval) in got:
+                    w_ = sorted(set(stops) | ({x} if x != 'pending' else set()))
+                    if x == 'pending':
+                        if known is None or sorted(k for k in known if isinstance(k, int)) != sorted(stops) or len(known) != len(set(stops)) + 1:
+                            bad2.append('stops %s, cursor at the pending-wrap column: set becomes %s' % (stops, known))
+                    elif known is None or sorted(known) != w_:
+                        bad2.append('stops %s, cursor %s: set becomes %s, documented %s' % (stops, x, known, w_))
+                if not got:
+                    bad2.append('stops %s, cursor %s: no exit path' % (stops, x))
+        if not bad2:
+            bad = []
+            how_decided = 'resulting stop set equals stops + {cursor column} on 25 exactly known (stop set, cursor) classes'
+        else:
+            bad = bad + bad2[:2]
+    chk.instance('R-TABS', short(f), 'adds exactly the cursor column', not bad, detail='; '.join(bad[:2]) or how_decided, span=prog.bodies[f].span, what='HTS performs %s' % bad[:2])
     f = ep('clear_tab_stop')
     bad = []
     cnt = 0
@@ -395,6 +452,27 @@ def run_c18(ctx, chk):
             bad.append('[%s] selector %s performs %s' % (r.label, hv, [o[0] for o in ops]))
     if not {0, 3} <= seen_sel:
         bad.append('no separate path for selector(s) %s (the selector is not tested against them)' % sorted({0, 3} - seen_sel))
+    if bad:
+        bad2 = []
+        for stops in ([], [8], [8, 16], [3], [0, 5]):
+            for x in (0, 3, 5, 8):
+                for sel_ in (None, 0, 3, 1, 2, 4, 9999):
+                    got = tabs_op_run(ctx, 'clear_tab_stop', stops, x, sel_)
+                    if sel_ in (None, 0):
+                        w_ = sorted(set(stops) - {x})
+                    elif sel_ == 3:
+                        w_ = []
+                    else:
+                        w_ = sorted(stops)
+                    for (known, xval) in got:
+                        if known is None or sorted(known) != w_:
+                            bad2.append('stops %s, cursor %s, selector %s: set becomes %s, documented %s' % (stops, x, sel_, known, w_))
+                    if not got:
+                        bad2.append('stops %s, cursor %s, selector %s: no exit path' % (stops, x, sel_))
+        if not bad2:
+            bad = []
+        else:
+            bad = bad + bad2[:2]
     chk.instance('R-TABS', short(f), 'TBC 0/absent removes the stop at the cursor, 3 removes all, others nothing', cnt > 0 and not bad,
                  detail='; '.join(bad[:3]) or '%d exit states' % cnt, span=prog.bodies[f].span, what='; '.join(bad[:2]))
     # D3 tab: least stop strictly to the right, else the last column; order independent
@@ -836,7 +914,10 @@ def run_c12(ctx, chk):
                  what='power-on modes are %s, documented {DECAWM, DECTCEM}' % (dm,))
     # decision table over (number, private, set/reset)
     cases = []
-    for num in (3, 4, 5, 6, 7, 20, 25, 1, 2, 9, 12, 1000, 2004, 9999, 96, 160, 192, 224, 800, 0):
+    nums = (3, 4, 5, 6, 7, 20, 25, 1, 2, 9, 12, 1000, 2004, 9999, 96, 160, 192, 224, 800, 0)
+    if ctx.tier == 'thorough':
+        nums = tuple(range(0, 130)) + (160, 192, 224, 800, 1000, 2004, 9999)
+    for num in nums:
         for private in (True, False):
             cases.append((num, private))
     n = 0
